@@ -74,12 +74,13 @@ fn statement_case<P: G>(capacity: usize) -> Box<dyn Case> {
                 pcounts.push(count - 1);
             }
             for pcount in pcounts {
-                for seeded in [false, true] {
+                // seed: absent, an ordinary one, and the corners of the scalar field (presence is what counts, not the value)
+                for (seed_name, seed) in [("none", None), ("ordinary", Some(seed_scalar(1))), ("zero", Some(Scalar::ZERO)), ("one", Some(Scalar::ONE)), ("minus-one", Some(-Scalar::ONE))] {
+                    let seeded = seed.is_some();
                     for some_promises in [false, true] {
                         let promises: Vec<Option<u64>> = (0..pcount).map(|j| if some_promises { Some(j as u64 % 3) } else { None }).collect();
-                        let seed = if seeded { Some(seed_scalar(1)) } else { None };
                         let expect = is_pow2(count) && count <= capacity && pcount == count && (!seeded || count == 1);
-                        let sub = format!("count={},promises={},seed={},some={}", count, pcount, seeded, some_promises);
+                        let sub = format!("count={},promises={},seed={},some={}", count, pcount, seed_name, some_promises);
                         match catch(|| P::statement(params.clone(), commitments.clone(), promises.clone(), seed)) {
                             Err(p) => res.violate(sub, format!("constructor panicked: {}", p)),
                             Ok(r) => {
@@ -272,7 +273,7 @@ fn mask_degree_commit_case<P: G>() -> Box<dyn Case> {
 
 pub fn run(rep: &mut Report) {
     rep.rule = "complete enumeration: RangeParameters::init bits 0..=130 x capacity 0..=130 (F) and {0,1,2,3,4,63,64,65,128}^2 (Ristretto); \
-                RangeStatement::init commitment count 0..=17 x promise count {count-1,count,count+1} x seed x capacity {1,2,4,8,16}; \
+                RangeStatement::init commitment count 0..=17 x promise count {count-1,count,count+1} x seed {none, ordinary, 0, 1, -1} x capacity {1,2,4,8,16}; \
                 RangeWitness::init all shapes of length <= 3 over blinding counts 0..=8, one-position deviations at length 4, counts \
                 {255..258,262,512,513}; CommitmentOpening::r_len; ExtendedMask::assign degree x length 0..=8; ExtensionDegree::try_from all \
                 u8 and usize {0..=300, 2^16, 2^32, usize::MAX, values whose low byte is 1..6}; PedersenGens::commit degree x count 0..=8 x value {0,1,9,-1} x zero patterns of the blinding vector; \
